@@ -32,13 +32,19 @@ pub const BUILTINS: [B; 63] = [
 // argument), ToString / Format / Print (float -> text), Convert (unit table scan over Unicode
 // lower-casing), TimeNow (clock FFI)
 
+pub const G_MATH1: [B; 8] = [B::Sqrt, B::Abs, B::Floor, B::Ceil, B::Trunc, B::Round, B::Random, B::Exp];
+pub const G_AGG: [B; 6] = [B::Min, B::Max, B::Avg, B::Sum, B::Prod, B::Median];
+pub const G_LIST1: [B; 9] = [B::Len, B::Head, B::Tail, B::Unique, B::Sort, B::Reverse, B::Any, B::All, B::Flatten];
+pub const G_TYPE1: [B; 11] = [B::ToNumber, B::ToBool, B::Typeof, B::Arity, B::Keys, B::Values, B::Entries, B::Trim, B::Uppercase, B::Lowercase, B::Len];
+pub const G_NUM2: [B; 8] = [B::Percentile, B::Dot, B::Chunk, B::Round, B::Ugt, B::Ult, B::Ugte, B::Ulte];
+pub const G_HOF2: [B; 11] = [B::Map, B::Filter, B::Every, B::Some, B::SortBy, B::GroupBy, B::CountBy, B::Join, B::Split, B::Concat, B::Zip];
+pub const G_ARGS3: [B; 3] = [B::Slice, B::Replace, B::Reduce];
+
 #[cfg(kani)]
-fn any_builtin_accepting(nargs: usize) -> B {
+fn pick<const N: usize>(g: &[B; N]) -> B {
     let i: usize = kani::any();
-    kani::assume(i < 63);
-    let f = BUILTINS[i];
-    kani::assume(f.arity().can_accept(nargs));
-    f
+    kani::assume(i < N);
+    g[i]
 }
 #[cfg(kani)]
 fn any_scalar() -> Value {
@@ -46,101 +52,75 @@ fn any_scalar() -> Value {
     if k == 0 { Value::Number(kani::any()) } else if k == 1 { Value::Bool(kani::any()) } else { Value::Null }
 }
 
-// ---- every built-in x argument shape --------------------------------------------------------
-kproof!(cut, 6, fn c01_q_any_builtin_one_scalar() {
-    let v = any_scalar();
-    let f = any_builtin_accepting(1);
+/// one call of a symbolically chosen built-in of group `$g` on the argument vector `$args`
+macro_rules! c01_group {
+    ($name:ident, $unwind:literal, $g:expr, |$a:ident, $b:ident, $c:ident, $l:ident, $v:ident, $w:ident| $args:expr, $cover:expr) => {
+        kproof!(cut, $unwind, fn $name() {
+            let ($a, $b, $c): (f64, f64, f64) = (kani::any(), kani::any(), kani::any());
+            let $v = any_scalar();
+            let $w = any_scalar();
+            let $l = arena::list_cell(vec![n($a), n($b)]);
+            let f = pick(&$g);
+            let heap = arena::heap();
+            let cv: fn(B, f64, f64, f64) -> bool = $cover;
+            kani::cover!(cv(f, $a, $b, $c), "reach the interesting input");
+            let _ = call_bi(f, $args, &heap);
+            std::mem::forget(heap);
+        });
+    };
+}
+c01_group!(c01_q_math1_any_double, 5, G_MATH1, |a, b, c, l, v, w| av![n(a)], |f, a, _b, _c| matches!(f, B::Random) && a.is_nan());
+c01_group!(c01_t_math1_any_scalar, 5, G_MATH1, |a, b, c, l, v, w| av![v], |f, _a, _b, _c| matches!(f, B::Round));
+c01_group!(c01_q_agg_two_doubles, 6, G_AGG, |a, b, c, l, v, w| av![n(a), n(b)], |f, a, _b, _c| matches!(f, B::Median) && a.is_nan());
+c01_group!(c01_q_agg_list2, 6, G_AGG, |a, b, c, l, v, w| av![l], |f, a, _b, _c| matches!(f, B::Median) && a.is_nan());
+c01_group!(c01_t_agg_one_scalar, 6, G_AGG, |a, b, c, l, v, w| av![v], |f, _a, _b, _c| matches!(f, B::Median));
+c01_group!(c01_t_agg_two_scalars, 6, G_AGG, |a, b, c, l, v, w| av![v, w], |f, _a, _b, _c| matches!(f, B::Avg));
+c01_group!(c01_q_list1_list2, 6, G_LIST1, |a, b, c, l, v, w| av![l], |f, a, _b, _c| matches!(f, B::Sort) && a.is_nan());
+c01_group!(c01_t_list1_scalar, 6, G_LIST1, |a, b, c, l, v, w| av![v], |f, _a, _b, _c| matches!(f, B::Tail));
+c01_group!(c01_t_type1_scalar, 6, G_TYPE1, |a, b, c, l, v, w| av![v], |f, _a, _b, _c| matches!(f, B::ToBool));
+c01_group!(c01_t_type1_list2, 6, G_TYPE1, |a, b, c, l, v, w| av![l], |f, _a, _b, _c| matches!(f, B::Typeof));
+c01_group!(c01_q_num2_list_double, 6, G_NUM2, |a, b, c, l, v, w| av![l, n(c)], |f, a, _b, c| (matches!(f, B::Percentile) && a.is_nan()) || (matches!(f, B::Chunk) && c > 0.0 && c < 1.0));
+c01_group!(c01_q_num2_two_doubles, 6, G_NUM2, |a, b, c, l, v, w| av![n(a), n(c)], |f, _a, _b, c| matches!(f, B::Round) && c == f64::NEG_INFINITY);
+c01_group!(c01_t_num2_two_scalars, 6, G_NUM2, |a, b, c, l, v, w| av![v, w], |f, _a, _b, _c| matches!(f, B::Ugt));
+c01_group!(c01_t_num2_two_lists, 6, G_NUM2, |a, b, c, l, v, w| av![l, l], |f, _a, _b, _c| matches!(f, B::Dot));
+c01_group!(c01_t_hof2_list_scalar, 6, G_HOF2, |a, b, c, l, v, w| av![l, v], |f, _a, _b, _c| matches!(f, B::Map));
+c01_group!(c01_t_hof2_two_scalars, 6, G_HOF2, |a, b, c, l, v, w| av![v, w], |f, _a, _b, _c| matches!(f, B::Zip));
+c01_group!(c01_t_hof2_two_lists, 6, G_HOF2, |a, b, c, l, v, w| av![l, l], |f, _a, _b, _c| matches!(f, B::Concat));
+c01_group!(c01_q_args3_list_double_double, 6, G_ARGS3, |a, b, c, l, v, w| av![l, n(a), n(c)], |f, a, _b, _c| matches!(f, B::Slice) && a.is_nan());
+c01_group!(c01_t_args3_three_scalars, 6, G_ARGS3, |a, b, c, l, v, w| av![v, w, v], |f, _a, _b, _c| matches!(f, B::Slice));
+
+// empty lists: the aggregates and percentile (the other built-ins on [] are exercised by C14 / C15)
+kproof!(cut, 6, fn c01_q_agg_empty_list() {
+    let e = arena::list_cell(vec![]);
+    let f = pick(&G_AGG);
     let heap = arena::heap();
-    kani::cover!(matches!(f, B::Median), "reach median");
-    let _ = call_bi(f, av![v], &heap);
+    kani::cover!(matches!(f, B::Median), "reach median([])");
+    let _ = call_bi(f, av![e], &heap);
     std::mem::forget(heap);
 });
-kproof!(cut, 6, fn c01_q_any_builtin_two_scalars() {
-    let (v, w) = (any_scalar(), any_scalar());
-    let f = any_builtin_accepting(2);
-    let heap = arena::heap();
-    kani::cover!(matches!(f, B::Median), "reach median");
-    let _ = call_bi(f, av![v, w], &heap);
-    std::mem::forget(heap);
-});
-kproof!(cut, 6, fn c01_t_any_builtin_three_scalars() {
-    let (v, w, x) = (any_scalar(), any_scalar(), any_scalar());
-    let f = any_builtin_accepting(3);
-    let heap = arena::heap();
-    kani::cover!(matches!(f, B::Slice), "reach slice");
-    let _ = call_bi(f, av![v, w, x], &heap);
-    std::mem::forget(heap);
-});
-kproof!(cut, 7, fn c01_q_any_builtin_one_list() {
-    let (a, b): (f64, f64) = (kani::any(), kani::any());
-    let l = arena::list_cell(vec![n(a), n(b)]);
-    let f = any_builtin_accepting(1);
-    let heap = arena::heap();
-    kani::cover!(matches!(f, B::Median) && a.is_nan(), "reach median of a NaN");
-    let _ = call_bi(f, av![l], &heap);
-    std::mem::forget(heap);
-});
-kproof!(cut, 6, fn c01_q_any_builtin_empty_list() {
-    let l = arena::list_cell(vec![]);
-    let f = any_builtin_accepting(1);
-    let heap = arena::heap();
-    kani::cover!(matches!(f, B::Median), "reach median");
-    let _ = call_bi(f, av![l], &heap);
-    std::mem::forget(heap);
-});
-kproof!(cut, 7, fn c01_q_any_builtin_list_and_double() {
-    let (a, b, p): (f64, f64, f64) = (kani::any(), kani::any(), kani::any());
-    let l = arena::list_cell(vec![n(a), n(b)]);
-    let f = any_builtin_accepting(2);
-    let heap = arena::heap();
-    kani::cover!(matches!(f, B::Percentile) && a.is_nan(), "reach percentile of a NaN");
-    kani::cover!(matches!(f, B::Chunk) && p > 1e300, "reach a huge chunk size");
-    let _ = call_bi(f, av![l, n(p)], &heap);
-    std::mem::forget(heap);
-});
-kproof!(cut, 6, fn c01_q_any_builtin_empty_list_and_double() {
+kproof!(cut, 6, fn c01_q_percentile_empty_list() {
     let p: f64 = kani::any();
-    let l = arena::list_cell(vec![]);
-    let f = any_builtin_accepting(2);
+    let e = arena::list_cell(vec![]);
     let heap = arena::heap();
-    kani::cover!(matches!(f, B::Percentile), "reach percentile of []");
-    let _ = call_bi(f, av![l, n(p)], &heap);
-    std::mem::forget(heap);
-});
-kproof!(cut, 7, fn c01_t_any_builtin_list_double_double() {
-    let (a, b, s, t): (f64, f64, f64, f64) = (kani::any(), kani::any(), kani::any(), kani::any());
-    let l = arena::list_cell(vec![n(a), n(b)]);
-    let f = any_builtin_accepting(3);
-    let heap = arena::heap();
-    kani::cover!(matches!(f, B::Slice) && s.is_nan(), "reach slice with a NaN bound");
-    let _ = call_bi(f, av![l, n(s), n(t)], &heap);
-    std::mem::forget(heap);
-});
-kproof!(cut, 7, fn c01_t_any_builtin_two_lists() {
-    let (a, b, c): (f64, f64, f64) = (kani::any(), kani::any(), kani::any());
-    let l = arena::list_cell(vec![n(a), n(b)]);
-    let m = arena::list_cell(vec![n(c)]);
-    let f = any_builtin_accepting(2);
-    let heap = arena::heap();
-    kani::cover!(matches!(f, B::Dot), "reach dot");
-    let _ = call_bi(f, av![l, m], &heap);
+    kani::cover!(p == 50.0, "reach percentile([], 50)");
+    let _ = call_bi(B::Percentile, av![e, n(p)], &heap);
     std::mem::forget(heap);
 });
 
 // ---- range: guards for every pair of doubles (list construction itself bounded away) --------
-kproof!(cut, 4, fn c01_q_range_guards_any_doubles() {
+kproof!(cut, 6, fn c01_q_range_guards_any_doubles() {
     let (a, b): (f64, f64) = (kani::any(), kani::any());
     // the list-building loop is proportional to b - a: pairs that would build 2 .. 2^32 elements
     // are assumed away, every other pair (incl. +-1e19, inf, NaN) is executed
-    kani::assume(!(a.is_finite() && b.is_finite() && b - a > 1.5 && b - a <= 4294967300.0));
+    kani::assume(!(a.is_finite() && b.is_finite() && b - a > 1.0 && b - a <= 4294967300.0));
     let heap = arena::heap();
     kani::cover!(a < -1e19 && b > 1e19, "reach beyond i64");
     let _ = call_bi(B::Range, av![n(a), n(b)], &heap);
     std::mem::forget(heap);
 });
-kproof!(cut, 4, fn c01_q_range1_guards_any_double() {
+kproof!(cut, 6, fn c01_q_range1_guards_any_double() {
     let b: f64 = kani::any();
-    kani::assume(!(b.is_finite() && b > 1.5 && b <= 4294967300.0));
+    kani::assume(!(b.is_finite() && b > 1.0 && b <= 4294967300.0));
     let heap = arena::heap();
     kani::cover!(b > 1e19, "reach beyond i64");
     let _ = call_bi(B::Range, av![n(b)], &heap);
@@ -159,22 +139,24 @@ kproof!(cut_nocall, 9, fn c01_q_factorial_total() {
     std::mem::forget(e);
     std::mem::forget(heap);
 });
-kproof!(cut_nocall, 4, fn c01_q_unary_and_spread_total() {
-    let v: u8 = kani::any();
-    let leaf = if v == 0 { Expr::Number(kani::any()) } else if v == 1 { Expr::Bool(kani::any()) } else { Expr::Null };
-    let k: u8 = kani::any();
-    let heap = arena::heap();
-    let e = if k == 0 {
-        sp(Expr::UnaryOp { op: UnaryOp::Negate, expr: arena::bx(leaf) })
-    } else if k == 1 {
-        sp(Expr::UnaryOp { op: UnaryOp::Not, expr: arena::bx(leaf) })
-    } else if k == 2 {
-        sp(Expr::UnaryOp { op: UnaryOp::Invert, expr: arena::bx(leaf) })
-    } else {
-        sp(Expr::Spread(arena::bx(leaf)))
+macro_rules! c01_unary {
+    ($name:ident, $mk:expr) => {
+        kproof!(cut_nocall, 4, fn $name() {
+            let a: f64 = kani::any();
+            let t: bool = kani::any();
+            let heap = arena::heap();
+            let mk: fn(f64, bool) -> Expr = $mk;
+            let e = sp(mk(a, t));
+            kani::cover!(a.is_nan(), "reach NaN");
+            let _ = evaluate_ast(&e, heap.clone(), arena::env(), 0, src());
+            std::mem::forget(e);
+            std::mem::forget(heap);
+        });
     };
-    kani::cover!(k == 0 && v == 0, "reach negate number");
-    let _ = evaluate_ast(&e, heap.clone(), arena::env(), 0, src());
-    std::mem::forget(e);
-    std::mem::forget(heap);
-});
+}
+c01_unary!(c01_q_negate_number, |a, _t| Expr::UnaryOp { op: UnaryOp::Negate, expr: arena::bx(num(a)) });
+c01_unary!(c01_t_negate_bool, |_a, t| Expr::UnaryOp { op: UnaryOp::Negate, expr: arena::bx(Expr::Bool(t)) });
+c01_unary!(c01_t_not_bool, |_a, t| Expr::UnaryOp { op: UnaryOp::Not, expr: arena::bx(Expr::Bool(t)) });
+c01_unary!(c01_t_invert_number, |a, _t| Expr::UnaryOp { op: UnaryOp::Invert, expr: arena::bx(num(a)) });
+c01_unary!(c01_t_spread_number, |a, _t| Expr::Spread(arena::bx(num(a))));
+c01_unary!(c01_t_spread_null, |_a, _t| Expr::Spread(arena::bx(Expr::Null)));
